@@ -14,7 +14,8 @@ def opsSolve (op : String) : Option (Rd String) :=
       let c0 : K ← num; let c1 : K ← num; let c2 : K ← num; let c3 : K ← num
       return eList (solveCubic c0 c1 c2 c3)
   | "solve.quartic" => some do
-      -- only the reductions at the head of solve_quartic are modelled; the general case answers GENERAL
+      -- this op answers only the reductions at the head of solve_quartic (the general case answers GENERAL);
+      -- the whole solver is `solve.quartic_full` in OpsQuartic.lean
       let c0 : K ← num; let c1 : K ← num; let c2 : K ← num; let c3 : K ← num; let c4 : K ← num
       if (c4 ==. (0 : K)) || (c0 ==. (0 : K)) || ((c3 / c4 ==. (0 : K)) && (c1 / c4 ==. (0 : K))) then
         return eList (solveQuarticWith (fun _ _ _ _ _ => []) c0 c1 c2 c3 c4)
